@@ -16,7 +16,10 @@ import (
 // C15: the cosmetic engine returns exactly the applicable, non-excepted selectors.
 
 var c15Domains = []string{"example.org", "sub.example.org", "example.com", "a.com", "b.a.com", "google.*", "example.*", "a.co.uk", "xa.com", "evil.org", "org", "com", "co.uk", "uk", "maps.example.*", "www.google.*", "b.a.*", "cafe.de", "bad.*", "Example.ORG"}
-var c15Selectors = []string{".banner", "#ad", ".ad-box", "div[id^=\"ads\"]", ".sponsored", ".x"}
+var c15Selectors = []string{".banner", "#ad", ".ad-box", "div[id^=\"ads\"]", ".sponsored", ".x",
+	// Selectors that differ in white space or letter case only are different
+	// selectors (descendant combinator, case-sensitive class names).
+	"div .ad", "div.ad", "div > .ad", "div>.ad", ".Banner", "div  .ad", "a[href*=\"ad server\"]", "a[href*=\"adserver\"]"}
 var c15Hostnames = []string{
 	"example.org", "sub.example.org", "deep.sub.example.org", "xexample.org", "example.org.evil.org", "example.com", "www.example.com",
 	"a.com", "b.a.com", "c.b.a.com", "xa.com", "google.com", "www.google.co.uk", "google.evil.xgoogle.com", "xgoogle.com", "example.de",
